@@ -1,4 +1,5 @@
 import PhysisModel.Model.LeRead
+import PhysisModel.Model.Utf8Lossy
 /-!
 Model of `src/dat.rs` (`DatHeader`) and `src/gearsets.rs` (`GearSets::from_existing`,
 `write_to_buffer`, the binrw readers / writers of `GearSets`, `GearSet`, `GearSlot` and the
@@ -12,8 +13,9 @@ maps, and the iteration order of the map cannot matter.  That `usize → GearSlo
 the identity on 0..13 with the documented variant names is dumped from the compiled code (T2,
 `Generated/GearSlotCodes.lean`).
 
-Strings: `NullString → String` is lossy UTF-8 decoding; valid UTF-8 (the quantifier) is assumed,
-so names are their bytes.
+Strings: `NullString → String` (`to_string()`, i.e. binrw's `Display`) is lossy UTF-8 decoding:
+every maximal invalid part becomes U+FFFD (`Model/Utf8Lossy.lean`); a name is the UTF-8 bytes of
+the resulting `String`.
 -/
 namespace Physis.GearSets
 open Physis.LeRead
@@ -165,9 +167,10 @@ def readSet (b : Bytes) : Option (GearSet × Bytes) :=
   | some (index, b) =>
   match readNullString b with
   | none => none
-  | some (name, b) =>
+  | some (raw, b) =>
+  let name := Utf8Lossy.fromUtf8Lossy raw          -- `convert_to_string`: `NullString::to_string()`
   -- `pad_size_to = 47`: seek forward when fewer than 47 bytes were consumed
-  match takeU64 (skip (47 - (name.length + 1)) b) with
+  match takeU64 (skip (47 - (raw.length + 1)) b) with
   | none => none
   | some (unknown1, b) =>
   match readN readSlot NUMBER_OF_GEARSLOTS b with
@@ -212,9 +215,9 @@ def parseGear (buffer : Bytes) : Res GearSets :=
   match readDatHeader buffer with
   | none => .none
   | some (header, rest) =>
-    -- `header.content_size as usize - 1`: subtraction overflow panics (debug build, the tests' profile)
-    if header.contentSize = 0 then .panic else
-    match takeN (header.contentSize.toNat - 1) rest with      -- `read_exact`
+    -- `(header.content_size as usize).checked_sub(1)?` (fix 08813b0; it used to panic)
+    if header.contentSize = 0 then .none else
+    match takeN (header.contentSize.toNat - 1) rest with      -- `buffer.get(start..start + n)?`
     | none => .none
     | some (buf, _) =>
       match readGearSets (buf.map (· ^^^ GEARSET_KEY)) with
